@@ -49,13 +49,20 @@ KINDS = {
 def _strategy(draw):
     st = gen.st
     big = draw(st.booleans())
+    # a quarter of the pairs: a whole state is blocklisted, outlier models are on, and the perturbed unit is one of
+    # that state's units at or above the threshold (its counts must not move the outlier thresholds of the others)
+    state_mode = draw(st.integers(0, 3)) == 0
+    if state_mode:
+        big = True
     case = draw(
         gen.election_case(
             min_nonrep=2,
             slack=(12, 22) if big else (0, 8),
             outliers=(True,) if big else (False,),
+            min_states=2 if state_mode else 1,
+            state_blocklist_odds=1 if state_mode else 8,
+            max_other=24 if state_mode else 14,
             statuses=(gen.N, gen.N, gen.NH, gen.N0, gen.B, gen.BN, gen.Z, gen.ZN, gen.BZ, gen.BZN, gen.A, gen.T_HI),
-            max_other=14,
         )
     )
     if "unit" not in case["req"]["aggregates"]:
@@ -72,6 +79,11 @@ def _strategy(draw):
     ids = [u["id"] for u in case["units"] if u["st"] in sb and u["feed"] is not None]
     if ids:
         cands.append(("state_blocklisted", ids))
+    if state_mode:
+        thr = case["req"]["thr"]
+        above = [u["id"] for u in case["units"] if u["st"] in sb and u["feed"] is not None and u["feed"]["pev"] >= thr]
+        if above:
+            cands = [("state_blocklisted", above)]
     kind, ids = cands[draw(st.integers(0, len(cands) - 1))]
     uid = ids[draw(st.integers(0, len(ids) - 1))]
     repl = draw(st.sampled_from(["zero", "x0.1", "x40", "+1"]))
